@@ -180,6 +180,14 @@ def mk_doc(ctx: Ctx, allow: set[str]) -> specgen.Doc:
                         if e["path"] == path and e["method"] == meth.upper():
                             e["tags"] = tv
         d.features.add("tag_spelling_variants")
+    if len(d.ops) >= 2 and rng.random() < 0.12:
+        # two long tags that agree in their first ~110 characters (generated specs carry whole sentences as tags): two clients
+        stem = "Customer Relationship Management Accounts Receivable Reconciliation And Settlement Reporting Service For The European Region "
+        a, b = rng.sample(d.ops, 2)
+        for e, tag in ((a, stem + "Alpha"), (b, stem + "Beta Two")):
+            e["tags"] = [tag]
+            d.doc["paths"][e["path"]][e["method"].lower()]["tags"] = [tag]
+        d.features.add("long_tags_with_common_prefix")
     if "multi_tag" in allow and len(d.ops) >= 2 and rng.random() < 0.5:
         # operation A carries [X, Y]; operation B has Y (or a spelling variant) as FIRST tag and an operationId that
         # derives to the same method name: both live in client Y and must get distinct names there
